@@ -14,7 +14,7 @@ BIG = [4095, 4096, 4097]
 def pat(seed, a): return (a * 37 + (a >> 8) * 11 + seed) & 0xff
 
 ERRS = {'nospace': 'ENoSpace', 'eof': 'EEof', 'split': 'ESplit', 'file': 'EFile', 'overflow': 'EOverflow',
-        'findregion': 'EFindRegion', 'guestmem': 'EGuestMem',
+        'findregion': 'EFindRegion', 'guestmem': 'EGuestMem', 'writezero': 'EEof',
         'oob': 'EGuestMem', 'partial': 'EEof', 'io': 'EEof', 'misaligned': 'EBadIndex'}
 
 class GD(bytes):
@@ -88,7 +88,7 @@ class VSpec:
     def apply(self, op):
         """-> expected observation dict {'res': tuple or list of alternatives, 'a','c','a2','c2'}"""
         k = op[0]; a2 = c2 = 0
-        if k in 'rxots':
+        if k in 'rxotsX':
             h = self.rd[op[1]]; addrs = h[0]
             if k == 'r':
                 n = min(op[2], len(addrs)); res = ('ok', n, bytes(self.get(a) for a in addrs[:n]))
@@ -106,6 +106,15 @@ class VSpec:
                     if kind == 'l': n = min(n, lim)
                     res = ('ok', n, bytes(self.get(a) for a in addrs[:n]))
                     h[0] = addrs[n:]; h[1] += n
+            elif k == 'X':          # read_exact_to(count): sink kinds f (file), l (at most lim bytes per call), e/b (fails)
+                count, kind, lim = op[2], op[3], op[4]
+                n = min(count, len(addrs))
+                if count == 0: res = ('ok', 0, b'')
+                elif kind in 'eb': res = ('err', 'file') if n > 0 else [('err', 'file'), ('err', 'eof')]
+                elif kind == 'l' and lim == 0: res = ('err', 'eof') if n > 0 else [('err', 'eof')]
+                else:
+                    data = bytes(self.get(a) for a in addrs[:n]); h[0] = addrs[n:]; h[1] += n
+                    res = ('ok', n, data) if n == count else ('err', 'eof')
             elif k == 's':
                 off = op[2]
                 if off > len(addrs): res = ('err', 'split')
@@ -132,6 +141,15 @@ class VSpec:
             else:
                 n = min(count, len(data))
                 self.put(addrs, data[:n]); h[0] = addrs[n:]; h[1] += n; res = ('ok', n, b'')
+        elif k == 'A':              # write_all_from(count)
+            count, kind, data = op[2], op[3], op[4]
+            if count > len(addrs): res = ('err', 'nospace')
+            elif count == 0: res = ('ok', 0, b'')
+            elif kind in 'eb': res = ('err', 'file')
+            else:
+                n = min(count, len(data))
+                self.put(addrs, data[:n]); h[0] = addrs[n:]; h[1] += n
+                res = ('ok', 0, b'') if n == count else ('err', 'writezero')
         elif k == 'p':
             off = op[2]
             if off > len(addrs): res = ('err', 'split')
@@ -152,17 +170,20 @@ def gen_vops(rng, spec, nops, reader_only=False, writer_bias=False):
         side = 'r' if reader_only else ('w' if (writer_bias and rng.random() < 0.8) else rng.choice('rw'))
         if side == 'r':
             i = rng.randrange(len(spec.rd)); av = len(spec.rd[i][0])
-            k = rng.choice('rrxxottts')
+            k = rng.choice('rrxxotttsX')
             if k == 'r': op = ('r', i, pick_n(rng, av))
             elif k == 'x': op = ('x', i, pick_n(rng, av))
             elif k == 'o': op = ('o', i, rng.choice([1, 2, 4, 8, 16]))
             elif k == 't':
                 kind = rng.choice('ffaalle' + ('b' if rng.random() < 0.3 else 'l'))
                 op = ('t', i, pick_n(rng, av), kind, rng.choice([0, 1, 2, 5, max(av - 1, 0), av, 5000]) if kind == 'l' else 0)
+            elif k == 'X':
+                kind = rng.choice('fflle' + ('b' if rng.random() < 0.3 else 'l'))
+                op = ('X', i, pick_n(rng, av), kind, rng.choice([0, 1, 1, 2, 5, 7, max(av - 1, 1), 5000]) if kind == 'l' else 0)
             else: op = ('s', i, pick_n(rng, av))
         else:
             i = rng.randrange(len(spec.wr)); av = len(spec.wr[i][0])
-            k = rng.choice('wwwvvfffpc' if not writer_bias else 'wwvfffpp')
+            k = rng.choice('wwwvvfffpcA' if not writer_bias else 'wwvfffppA')
             if k == 'w': op = ('w', i, rdata(rng, min(pick_n(rng, av), 6000)))
             elif k == 'v':
                 parts = []
@@ -175,6 +196,11 @@ def gen_vops(rng, spec, nops, reader_only=False, writer_bias=False):
                 count = min(pick_n(rng, av), 6000)
                 dl = rng.choice([count, count, count + 3, max(count - 1, 0), count // 2, 0])
                 op = ('f', i, count, kind, rdata(rng, dl) if kind not in 'eb' else b'')
+            elif k == 'A':
+                kind = rng.choice('fflle' + ('b' if rng.random() < 0.3 else 'l'))
+                count = min(pick_n(rng, av), 6000)
+                dl = rng.choice([count, count, count + 3, max(count - 1, 0), count // 2, 0])
+                op = ('A', i, count, kind, rdata(rng, dl) if kind not in 'eb' else b'')
             elif k == 'p': op = ('p', i, pick_n(rng, av))
             else: op = ('c', i)
         ops.append(op); spec.apply(op)
@@ -183,10 +209,10 @@ def gen_vops(rng, spec, nops, reader_only=False, writer_bias=False):
 def op_text(op):
     k = op[0]
     if k in 'rxosp': return '%s,%d,%d' % (k, op[1], op[2])
-    if k == 't': return 't,%d,%d,%s,%d' % (op[1], op[2], op[3], op[4])
+    if k in 'tX': return '%s,%d,%d,%s,%d' % (k, op[1], op[2], op[3], op[4])
     if k == 'w': return 'w,%d,%s' % (op[1], op[2].hex())
     if k == 'v': return 'v,%d,%s' % (op[1], '/'.join(d.hex() or '-' for d in op[2]))
-    if k == 'f': return 'f,%d,%d,%s,%s' % (op[1], op[2], op[3], op[4].hex())
+    if k in 'fA': return '%s,%d,%d,%s,%s' % (k, op[1], op[2], op[3], op[4].hex())
     if k == 'c': return 'c,%d' % op[1] if len(op) == 2 else 'c,%d,%d' % (op[1], op[2])
     raise ValueError(op)
 
@@ -200,6 +226,10 @@ def op_coq(op):
     if k == 't':
         sink = 'None' if op[3] in 'eb' else ('(Some %d)' % (op[4] if op[3] == 'l' else op[2]))
         return '(RReadTo %s %d %s)' % (i, op[2], sink)
+    if k == 'X':
+        sink = 'None' if op[3] in 'eb' else ('(Some %d)' % (op[4] if op[3] == 'l' else max(op[2], 1)))
+        return '(RReadExactTo %s %d %s)' % (i, op[2], sink)
+    if k == 'A': return '(WWriteAllFrom %s %d %s)' % (i, op[2], 'None' if op[3] in 'eb' else '(Some %s)' % dcoq(op[4]))
     if k == 's': return '(RSplit %s %d)' % (i, op[2])
     if k == 'w': return '(WWrite %s %s)' % (i, dcoq(op[2]))
     if k == 'v': return '(WWriteV %s [%s])' % (i, '; '.join(dcoq(d) for d in op[2]))
@@ -327,7 +357,7 @@ def eval_vcase(c, out):
     for si, (op, got) in enumerate(zip(c['ops'], out['obs'][1:]), 1):
         e = spec.apply(op)
         if not res_matches(e['res'], got[0]):
-            kind = {'r': 'read', 'x': 'read_exact', 'o': 'read_obj', 't': 'read_to', 's': 'reader split_at', 'w': 'write',
+            kind = {'r': 'read', 'x': 'read_exact', 'o': 'read_obj', 't': 'read_to', 'X': 'read_exact_to', 'A': 'write_all_from', 's': 'reader split_at', 'w': 'write',
                     'v': 'write_vectored', 'f': 'write_from', 'p': 'writer split_at', 'c': 'commit'}[op[0]]
             p04.append({'what': 'virtio %s returned %s, the byte-stream specification gives %s' % (kind, got[0][:2], (e['res'] if isinstance(e['res'], list) else e['res'][:2])),
                         'step': si, 'op': op_json(op), 'got': got[0], 'sig': {'transport': 'virtio', 'op': kind}})
